@@ -1831,6 +1831,16 @@ class TextQueryBackend(Backend):
                 return self.field_quote + escaped_field_name + self.field_quote
         return escaped_field_name
 
+    def escape_and_quote_fieldref(
+        self, fieldref: str | list[str] | None
+    ) -> str | list[str] | None:
+        """Escape and quote the field reference of a correlation condition like any other field name."""
+        if isinstance(fieldref, str):
+            return self.escape_and_quote_field(fieldref)
+        elif isinstance(fieldref, list):
+            return [self.escape_and_quote_field(field) for field in fieldref]
+        return fieldref
+
     def decide_string_quoting(self, s: SigmaString) -> bool:
         """
         Decide if string is quoted based on the pattern in the class attribute str_quote_pattern. If
@@ -2659,7 +2669,7 @@ class TextQueryBackend(Backend):
             rule=rule,
             referenced_rules=self.convert_referenced_rules(rule.referenced_rules, method),
             field=(
-                rule.condition.fieldref
+                self.escape_and_quote_fieldref(rule.condition.fieldref)
                 if isinstance(rule.condition, SigmaCorrelationCondition)
                 else ""
             ),
@@ -2779,7 +2789,7 @@ class TextQueryBackend(Backend):
         if isinstance(cond, SigmaCorrelationCondition):
             return self._format_template(
                 template,
-                field=cond.fieldref,
+                field=self.escape_and_quote_fieldref(cond.fieldref),
                 op=self.correlation_condition_mapping[cond.op],
                 count=cond.count,
                 referenced_rules=self.convert_referenced_rules(referenced_rules, method),
